@@ -205,7 +205,7 @@ theorem goodMaxs_tryUpdateMax (F : Nat) (s : OrSwot) (src ts : Nat) (maxs' : Lis
       · rw [hch] at hv; exact h m0 hm0 _ v hv
       · rw [bump_changed ts m0 hch] at hv
         injection hv with hv; subst hv
-        exact ⟨rfl, hts.1, hts.2.1⟩
+        exact ⟨rfl, hts.1, hts.2⟩
     · rw [bump_get_other ts m0 X hX] at hv; exact h m0 hm0 X v hv
 
 theorem srcVals_good (s : OrSwot) (hg : GoodMaxs s) (X : Nat) (hX : X < 256) :
